@@ -585,6 +585,13 @@ def call_builtin(self, name, pos, kw, node, fr):
         return T.mk_call(name, pos)
     if name in ('list', 'dict') and not pos and not kw:
         return T.mk_tuple([], 'list') if name == 'list' else Term.of(Atom('dict'))
+    if name == 'dict' and not pos and kw:
+        return Term.of(Atom('dict', *[(lift(k), v) for k, v in kw]))       # dict(a=1, b=2) == {'a': 1, 'b': 2}
+    if name == 'dict' and len(pos) == 1 and kw:
+        pa = pos[0].single_atom()
+        if pa is not None and pa.kind == 'dict':
+            items = [(k, v) for k, v in pa.args if k.key not in {lift(x).key for x, _ in kw}]
+            return Term.of(Atom('dict', *(items + [(lift(k), v) for k, v in kw])))
     if name == 'getattr' and len(pos) >= 2:
         na = pos[1].single_atom()
         if na is not None and na.kind == 'str':
